@@ -30,6 +30,8 @@ pub struct Monitor {
     /// true: every call from `fail_at` on fails; false: only that one
     pub fail_permanent: AtomicBool,
     pub failed_calls: AtomicU64,
+    /// close() itself reports an error (it is still a close: it must not be repeated)
+    pub fail_close: AtomicBool,
     pub record: AtomicBool,
     pub log: Mutex<Vec<Ev>>,
     pub read_only: AtomicBool,
@@ -160,6 +162,9 @@ impl StorageBackend for MemBackend {
         }
         if self.mon.record.load(Ordering::SeqCst) {
             self.mon.log.lock().unwrap().push(Ev::Close);
+        }
+        if self.mon.fail_close.load(Ordering::SeqCst) {
+            return Err(std::io::Error::other("injected failure of close()"));
         }
         Ok(())
     }
